@@ -624,6 +624,12 @@ pub struct EnvOpts {
     pub signal_anytime: bool,
     /// per-kind choice budgets (kind, max recorded points)
     pub budgets: Vec<(&'static str, u32)>,
+    /// measure the C05 memory gauges at every step
+    pub gauges: bool,
+    /// keep only lengths of body events in the log (large scenarios)
+    pub light_log: bool,
+    /// handler gates are never released (a handler that never completes)
+    pub hold_gates: bool,
 }
 
 impl Default for EnvOpts {
@@ -637,6 +643,9 @@ impl Default for EnvOpts {
             signal_at: None,
             signal_anytime: false,
             budgets: vec![],
+            gauges: false,
+            light_log: false,
+            hold_gates: false,
         }
     }
 }
